@@ -1,3 +1,13 @@
-import ChfVerif.Model.Basic
-import ChfVerif.Model.CdrFile
-import ChfVerif.Spec.TS32297
+-- root of the library: importing every property module builds everything (`lake build ChfVerif`)
+import ChfVerif.Props.C01
+import ChfVerif.Props.C02
+import ChfVerif.Props.C06
+import ChfVerif.Props.C07
+import ChfVerif.Props.C08
+import ChfVerif.Props.C10
+import ChfVerif.Props.C12
+import ChfVerif.Props.C13
+import ChfVerif.Props.C14
+import ChfVerif.Props.C15
+import ChfVerif.Props.C17
+import ChfVerif.Props.C20
